@@ -79,6 +79,7 @@ func (g *gen) stmt() []Stmt {
 			stmtGen{p.Varargs, g.varargFuncStmt},
 			stmtGen{p.Meta, g.objectStmt},
 			stmtGen{p.Meta, g.objUseStmt},
+			stmtGen{p.Meta, g.callChainStmt},
 			stmtGen{p.Errors, g.pcallStmt},
 			stmtGen{p.Errors, g.runtimeErrorStmt},
 			stmtGen{p.Close, g.closeStmt},
